@@ -621,6 +621,13 @@ type c12Fix struct {
 	// jenny emits a plain struct for it (finding C01/cue/nullable-union-of-structs-not-discriminated) → unconstrained
 	enumSign bool // CUE one-member enum of a negative integer (`-1 @cog(kind="enum",memberNames="Neg1")`) reaches the
 	// IR with the sign lost (member Neg1 = 1): the emitted `enum: [1]` rejects the source value → admit the negated value
+	bytes bool // array of uint8 is Go `[]byte`, which encoding/json writes as a base64 string (finding
+	// C01/cue/array-of-uint8-is-bytes) while the schema says array of integer → unconstrained
+}
+
+func c12IsByteArray(t ast.Type) bool {
+	return t.Kind == ast.KindArray && t.Array != nil && t.Array.ValueType.Kind == ast.KindScalar &&
+		t.Array.ValueType.Scalar != nil && t.Array.ValueType.Scalar.ScalarKind == ast.KindUint8 && !t.Array.ValueType.Nullable
 }
 
 // c12SignLostEnum: an enum member named Neg<k> holding the positive value k.
@@ -670,6 +677,8 @@ func c12RepairNode(t ast.Type, node JV, fix c12Fix) JV {
 			}
 			out.set("properties", np)
 		}
+	case c12IsByteArray(t) && fix.bytes:
+		out = jObj()
 	case t.Kind == ast.KindArray && t.Array != nil:
 		if it, ok := out.get("items"); ok {
 			out.set("items", c12RepairNode(t.Array.ValueType, it, fix))
@@ -723,13 +732,13 @@ func c12Repair(schema *ast.Schema, emitted JV, fix c12Fix) JV {
 }
 
 // c12ExplainedBy: the smallest set of recorded mechanisms whose repair in the emitted schema makes the
-// document valid ("any", "nullable", "nullunion", "enumsign", joined by + in that order); "" when none does.
+// document valid ("any", "nullable", "nullunion", "enumsign", "bytes", joined by + in that order); "" when none does.
 func c12ExplainedBy(schema *ast.Schema, emitted JV, root string, doc JV) string {
 	type cand struct {
 		name string
 		fix  c12Fix
 	}
-	names := []string{"any", "nullable", "nullunion", "enumsign"}
+	names := []string{"any", "nullable", "nullunion", "enumsign", "bytes"}
 	var cands []cand
 	for size := 1; size <= len(names); size++ {
 		for mask := 1; mask < 1<<len(names); mask++ {
@@ -743,7 +752,7 @@ func c12ExplainedBy(schema *ast.Schema, emitted JV, root string, doc JV) string 
 				continue
 			}
 			cands = append(cands, cand{strings.Join(parts, "+"),
-				c12Fix{any: mask&1 != 0, null: mask&2 != 0, nullUnion: mask&4 != 0, enumSign: mask&8 != 0}})
+				c12Fix{any: mask&1 != 0, null: mask&2 != 0, nullUnion: mask&4 != 0, enumSign: mask&8 != 0, bytes: mask&16 != 0}})
 		}
 	}
 	for _, c := range cands {
